@@ -33,6 +33,8 @@ pub proof fn lemma_sr_ops_ff<const P: u128>()
     assert forall|a: FiniteField<P>, b: FiniteField<P>| a.valid() && b.valid() implies (#[trigger] AddSpec::add_spec(a, b)).valid() by { lemma_closed(a, b); }
     assert forall|a: FiniteField<P>, b: FiniteField<P>| a.valid() && b.valid() implies (#[trigger] MulSpec::mul_spec(a, b)).valid() by { lemma_closed(a, b); }
 }
+//%% include inc/semhash.rs
+
 /// C07 for finite-field weights (the weights semantic hashing uses: low + high == 1 mod P): the count the real fold
 /// returns for an ordered BDD is the sum over all assignments, for every exported prime
 pub proof fn wmc_ff_bdd<const P: u128>(p: BddPtr, w: W<FiniteField<P>>, o: VarOrder, env: Env)
